@@ -755,6 +755,7 @@ META = (META[0] + " " + META_EXTRA, META[1])
 META = (META[0] + " SIB; MAPPED (every element access takes its offset from the mapping); DYNSLOT (c) no direct read of another extents object's slot array.", META[1])
 META = (META[0] + ' FULLPROD (total sizes multiply all rank() extents).', META[1])
 META = (META[0] + ' PRODLOOP (accumulated extents are indexed by the loop counter).', META[1])
+META = (META[0] + ' TRANSP-CALL; polynomial unrolling of loop-shaped layout mappings (ranks 1-4).', META[1])
 
 
 def run(chk, tier):
